@@ -9,6 +9,7 @@ import Pcore.Proofs.CtorBinary
 import Pcore.Proofs.CtorTimespan
 import Pcore.Proofs.CtorInit
 import Pcore.Proofs.CtorCanCoerce
+import Pcore.Proofs.DispatchBlocks
 import Pcore.Model.CtorNew
 import Pcore.Generated.FnFacts
 /-!
@@ -37,6 +38,9 @@ Full statement / proved / missing
 * `C16_safe`           — `callableWith d args blk` ⇔ arity within `[min,max]`, every argument `j` an instance of type
                          `min(j,last)`, block requirement met (both directions: nothing outside the declaration is accepted,
                          nothing inside it is refused).
+* `Alpha.C16_block_accepts` — for a declared block type with parameter types, `Callable[T1,…,Tn,a,b]`: the block is accepted IFF
+                         it takes every call the declaration allows (every count in `[a,b]`, argument `j` of type
+                         `T[min(j,last)]`); the acceptance test compares the LONGER of the two type lists.
 * `C16_nomatch`        — `call = reported` ⇔ no dispatch is callable.
 * `C16_call_stateless`, `C16_call_history_free`, `C16_runSeq_first` — a sequence of calls on ONE resolved function object
                          (`callSeq` threads the object through `callStep`) is the single-call semantics applied call by call:
@@ -347,6 +351,30 @@ end
 /-! ### non-vacuity: the hypotheses are met by non-trivial cases (the driver's alphabet) -/
 
 namespace Alpha
+
+/-! ### block acceptance for typed declared block types -/
+
+/-- a declared block type `Callable[T1,…,Tn,a,b]` accepts a block IFF the block takes every call the declaration allows — every
+    argument count in `[a,b]`, argument `j` of the declared type at position `min(j, last)`: `binst` (the model of
+    `CallableType.IsAssignable` over `TupleType.IsAssignable` that `CallableWith` uses, with its position loop over the LONGER of
+    the two type lists) is exactly that meaning.  With `C16_safe` / `C16_first`: a body whose dispatch declares a typed block
+    runs only with a block it can call in every declared way -/
+theorem C16_block_accepts (ts : List BP) (hts : ts ≠ []) (a : Nat) (b : Option Nat) (hab : leMax a b = true) (k : Blk) :
+    binst (.typed ts a b) k = true ↔ ∀ n, a ≤ n → leMax n b = true → TakesCall k n (typeAt ts) :=
+  binst_typed_iff ts hts a b hab k
+
+-- `Callable[String,Integer,2,3]`: a block (String, Integer, Integer?) is accepted, (String, Integer, String?) — incompatible
+-- only beyond the declared list — and the shorter (String, Integer) are refused; a longer declaration against a shorter block
+example : [BP.str, BP.int] ≠ [] ∧ leMax 2 (some 3) = true := by decide
+example : binst (.typed [.str, .int] 2 (some 3)) { min := 2, max := some 3, types := [.str, .int, .int] } = true := by decide
+example : binst (.typed [.str, .int] 2 (some 3)) { min := 2, max := some 3, types := [.str, .int, .str] } = false := by decide
+example : binst (.typed [.str, .int] 2 (some 3)) { min := 2, max := some 2, types := [.str, .int] } = false := by decide
+example : binst (.typed [.str, .int] 2 (some 3)) { min := 1, max := none, types := [.str, .num] } = true := by decide
+example : binst (.typed [.str, .int, .bool] 1 (some 2)) { min := 1, max := some 3, types := [.str, .int, .str] } = true := by decide
+example : binst (.typed [.num, .bool] 1 none) { min := 1, max := none, types := [.num] } = false := by decide
+example : run inst binst
+    [ { ops := [.param (.str 0 none), .block (.typed [.str, .int] 2 (some 3))], kind := .fn2 }, { ops := [.repeated .any], kind := .fn } ]
+    [.str "a"] (some { min := 2, max := some 3, types := [.str, .int, .str] }) = .called .reported := by decide
 
 /-! ### the modelled constructors on the alphabet values: `new` end to end
 `pf` is `strconv.ParseFloat(·, 64)` as a function from the text to the bits of the result: every theorem is for an ARBITRARY
